@@ -7,11 +7,20 @@
 # edges (the lexer's four bytes and two it must not trim: form feed, no-break space), block-level vs inline tags, nested
 # block tags, pre / textarea / script (with line feeds, block-level children, code), multi-statement code lines
 # (`- var a = 1; var b = 2`), doctype, the same inside if / each and inside mixin definitions and mixin blocks.
+#
+# DIRECTORY cases (class Dir): the rendered template is one of 2-4 files of a directory tree below template/page (same
+# directory and sub-directories, names that are prefixes of each other) which one engine loads — production mode all at
+# once, debug mode only the rendered name (and the names it is a prefix of), again on every render.  The files define
+# mixins of the SAME names with different bodies / parameter lists, call them with blocks, end in escaped or raw code
+# lines, carry doctypes; some start with an interpolated tag (compiled under whatever raw-mode flag the compiler holds
+# before the file's first code node).  Every template of the directory is rendered in both modes, under both
+# assignments of the file names (and creation orders) to the templates, optionally after renders of its siblings on the
+# same engine.  The model compiles the rendered template on its own; the oracle compares Go's two outputs.
 import json
 import tgen
 import tmpl
-from core import CoreProp, ser, de
-from common import unhx
+from core import CoreProp, ser, de, shrink_nodes
+from common import unhx, hx, cq_bool
 import c02
 import c03
 import c06
@@ -170,6 +179,155 @@ class W:
         return {"nodes": ser(nodes), "datas": [ser(d) for d in datas]}
 
 
+MIXIN_POOL = [b"m", b"card", b"item", b"m1", b"m2"]       # m / card: also W's names; m1 / m2: also C03's names
+FLAT_NAMES = [b"home", b"home2", b"about", b"a", b"ab", b"list", b"t"]
+SUB_NAMES = [b"sub/home", b"sub/item", b"sub/deep/a", b"home/detail", b"a/b", b"sub/t", b"t/t"]
+PARAM_LISTS = [[b"a"], [b"a"], [b"a", b"b"], [], [b"x"], [b"b", b"a"]]
+ITAG_VALUES = [b"a&b", b"x<y", b"q\"r", b"b", b"i>"]
+
+
+class Dir:
+    """directory trees of templates which share mixin names (and everything else a compiler could carry between files)"""
+
+    def __init__(self, rng):
+        self.rng = rng
+        self.w = W(rng)
+
+    def datas(self):
+        r = self.rng
+        d1 = {b"p": r.random() < 0.5, b"n": r.choice([0, 1, 5]), b"s": r.choice([b" s ", b"s", b"<b> ", b"a&b"]),
+              b"xs": [r.choice([0, 1, 2]) for _ in range(r.choice([0, 1, 3]))], b"tg": r.choice(ITAG_VALUES)}
+        datas = [d1]
+        if r.random() < 0.4:
+            datas.append({b"p": not d1[b"p"], b"n": r.choice([0, 2]), b"s": r.choice([b"\n", b"t "]), b"xs": [7, 8],
+                          b"tg": r.choice(ITAG_VALUES)})
+        return datas
+
+    def definition(self, name, idx):
+        """one template's own version of the mixin `name`: its own tag, marker text, parameter list, block position"""
+        r, w = self.rng, self.w
+        params = list(r.choice(PARAM_LISTS))
+        marker = name + b":" + str(idx).encode() + r.choice([b"", b" ", b"!"])
+        inner = [('text', marker)]
+        for p in params:
+            if r.random() < 0.8:
+                inner.append(('code', [('expr', ('id', p))], r.random() < 0.7, True))
+        if r.random() < 0.3:
+            inner.append(w.multi_code())
+        body = [('tag', r.choice(INLINE_TAGS + BLOCK_TAGS[:6]), r.random() < 0.5, [], [], inner)]
+        if r.random() < 0.5:
+            body += w.nodes(1, r.choice([1, 2]))
+        if r.random() < 0.7:
+            body.insert(r.randrange(len(body) + 1), ('mixinblock',))
+        if r.random() < 0.2:
+            body.append(('mixinblock',))
+        return ('mixin', name, params, body)
+
+    def template(self, idx, shared, common_defs):
+        """(nodes, itag, datas): definitions of the directory's shared mixin names first, then a body calling them"""
+        r, w = self.rng, self.w
+        depth = r.choice([1, 2, 2, 3])
+        defs = []
+        for name in shared:
+            if name in common_defs:
+                defs.append(common_defs[name])           # the `include` case: the same definition in every file
+            elif r.random() < 0.94:
+                defs.append(self.definition(name, idx))  # else: calls a mixin this file does not define
+        nodes = w.nodes(depth, r.choice([0, 1, 2, 3]))
+        for _ in range(r.choice([1, 1, 2, 3])):
+            name = r.choice(shared)
+            args = [r.choice([('str', b" arg "), ('id', b"s"), ('num', 3), ('id', b"n"), ('str', b"<&>")])
+                    for _ in range(r.choice([0, 1, 1, 2]))]
+            blk = w.nodes(min(depth, 2), r.choice([1, 2])) if r.random() < 0.6 else []
+            call = ('call', name, args, [], blk)
+            pos = r.randrange(len(nodes) + 1)
+            if r.random() < 0.35:
+                nodes.insert(pos, ('tag', r.choice([b"div", b"ul", b"section"]), False, [], [], [w.text(), call, w.text()]))
+            else:
+                nodes.insert(pos, call)
+        nodes = defs + nodes
+        if r.random() < 0.2:
+            nodes.insert(0, ('doctype', r.choice(DOCTYPES)))
+        if r.random() < 0.45:
+            # the file ends in a code line: raw (`!= s`) or escaped — the raw-mode flag the compiler is left with
+            nodes.append(('code', [('expr', ('id', r.choice([b"s", b"n"])))], r.random() < 0.45, True))
+        itag = None
+        if r.random() < 0.25:
+            itag = ('itag', ('id', b"tg"), r.random() < 0.5, w.nodes(1, r.choice([0, 1, 2])))
+        return nodes, itag, self.datas()
+
+    def borrowed(self, tier):
+        """a whole program of another stream as one file of the directory (C03's programs all define m1, m2, ...)"""
+        r = self.rng
+        k = r.random()
+        if k < 0.4:
+            c = self.w.case(tier)
+        elif k < 0.85:
+            c = c03.PROP.generate(r, 1, tier)[0]
+        else:
+            c = c06.PROP.gen_mixed(r, tier)
+        return de(c["nodes"]), None, [de(d) for d in c["datas"][:2]]
+
+    def names(self, k):
+        r = self.rng
+        shape = r.random()
+        if shape < 0.4:
+            pool = FLAT_NAMES                         # all in one directory
+        elif shape < 0.8:
+            pool = FLAT_NAMES + SUB_NAMES             # the page directory and sub-directories
+        else:
+            pool = SUB_NAMES                          # sub-directories only
+        return r.sample(pool, k)
+
+    def group(self, tier):
+        """all cases of one directory: every template x both assignments of names / creation order"""
+        r = self.rng
+        k = r.choice([2, 2, 3, 3, 4])
+        shared = r.sample(MIXIN_POOL[:3], r.choice([1, 1, 2]))
+        common_defs = {}
+        if r.random() < 0.15:
+            common_defs[shared[0]] = self.definition(shared[0], 0)
+        tpls = []
+        kind = r.random()
+        for i in range(k):
+            if kind < 0.65 or (kind < 0.85 and i % 2 == 0):
+                tpls.append(self.template(i + 1, shared, common_defs))
+            else:
+                tpls.append(self.borrowed(tier))
+        names = self.names(k)
+        cases = []
+        for rev in (False, True):
+            ns = names[::-1] if rev else names
+            slots = list(zip(ns, tpls))               # template i lives in the file called ns[i]
+            order = slots[::-1] if rev else slots     # creation order: the same (name, position) slots in both passes
+            for i, (nm, (nodes, itag, datas)) in enumerate(slots):
+                d = [{"name": n2.decode(), "nodes": None if n2 == nm else ser(t2[0]), "itag": None if n2 == nm else ser(t2[1])}
+                     for n2, t2 in order]
+                before = []
+                if r.random() < 0.3:
+                    before = [n2.decode() for n2 in r.sample([n for n in ns if n != nm], r.choice([1, min(2, k - 1)]))]
+                cases.append({"nodes": ser(nodes), "datas": [ser(x) for x in datas], "name": nm.decode(),
+                              "itag": ser(itag), "dir": d, "before": before})
+        return cases
+
+
+def itag_json(t):
+    """('itag', expr, inline, [node]): pug's `#{expr} ...` — a tag whose name is computed (InterpolatedTag)"""
+    return {"type": "InterpolatedTag", "expr": tmpl.s_(tmpl.js_src(t[1])), "isInline": t[2], "selfClosing": False, "attrs": [],
+            "attributeBlocks": [], "block": {"type": "Block", "nodes": [tmpl.pug_json(x) for x in t[3]]}}
+
+
+def file_text(nodes, itag):
+    body = [tmpl.pug_json(n) for n in nodes]
+    if itag:
+        body.insert(0, itag_json(itag))
+    return json.dumps({"type": "Block", "nodes": body}, ensure_ascii=False).encode('utf-8', 'surrogateescape')
+
+
+def mixin_defs(nodes):
+    return {n[1]: n for n in nodes if isinstance(n, tuple) and n[0] == 'mixin'}
+
+
 def big_loop(nodes):
     """a while loop driven to thousands of iterations (C02's cap cases): two modes x 10^4 iterations inside Coq"""
     for n in nodes:
@@ -214,20 +372,36 @@ def count_tags(nodes, acc):
 
 
 SEP = b'     {{- "" -}}\n'
+DIR_SHARE = 0.085     # of the generator's draws; a draw yields 4-8 cases: about 30% of the cases
 
 
 class C13(CoreProp):
     id = "C13"
+    engine = "C13"
     debug_mode = True
     judge_module = "Run.Judge_C13"
     prop_module = "Props.C13"
     prop_file = "Props/C13.v"
-    coq_targets = ["Props/C13.vo", "Run/Judge_C13.vo"]
+    coq_targets = ["Props/C13.vo", "Run/Judge_C13.vo", "Props/Tables.vo"]
     sizes = {"quick": 600, "thorough": 8000}
     shard = 48
     design_ref = "DESIGN.md section 6/C13"
-    rule = ("every case is rendered by the real engine in production AND debug mode (fresh engine per render) with 1-2 data values; "
-            "streams: 30% white-space-heavy trees of this property (texts with space/tab/CR/LF and form feed / no-break space at "
+    rule = ("every case is ONE template rendered by the real engine in production AND debug mode (fresh engine per render) with 1-2 "
+            "data values. About 30% of the cases are DIRECTORY cases: the rendered template is one of 2-4 files of a tree below "
+            "template/page (one directory, sub-directories, names that are prefixes of each other such as a / ab / a/b) loaded by "
+            "one engine — production mode compiles all files in one LoadTemplates, debug mode compiles the rendered name alone "
+            "(plus the names it is a prefix of) on every render. The files of one directory define mixins of the SAME names "
+            "(m, card, item; C03's m1, m2, ...) with different tags, marker texts, parameter lists and block positions (15% of "
+            "the directories: one identical shared definition, the `include` case; 6% of the definitions missing), call them "
+            "with blocks holding block-level tags and multi-statement code, carry doctypes, end in raw (`!=`) or escaped code "
+            "lines, and 25% of them start with an interpolated tag `#{tg}` (compiled under the raw-mode flag the compiler holds "
+            "before the file's first code node; data values with & < > quote); about 25% of the files are whole programs of the W, "
+            "C03 and C06 streams. EVERY template of a directory is a case of its own, under BOTH assignments of the file names "
+            "(and creation orders) to the templates, 30% of them after renders of 1-2 siblings on the same engine. Siblings that "
+            "do not load on their own in both modes are left out by the harness (reported). The model compiles the rendered "
+            "template on its own, so an influence of a sibling is Go <> M in one mode and an oracle violation between the modes; "
+            "cases starting with an interpolated tag (no constructor in the pug model) are judged by the oracle alone. "
+            "The other 70%: 30% white-space-heavy trees of this property (texts with space/tab/CR/LF and form feed / no-break space at "
             "their edges, block vs inline tags (also with the AST's inline flag contradicting the name), nesting depth <= 5 quick / 7 "
             "thorough, pre / textarea / script with line feeds, block children and code, multi-statement code lines, doctype, "
             "comments, if / each around them, mixin definitions and mixin-call blocks containing block-level tags), 20% C06 static "
@@ -249,6 +423,13 @@ class C13(CoreProp):
         "(Run/Judge_C13.v debug_load_ok), outside the theorems (one mode fails: outside the property's statement)",
         "the pug front end is not available offline: ASTs are generated (isInline, mustEscape, multi-statement code as "
         "pug's `- a; b` lines)",
+        "directory cases: M is a model of compiling ONE template; that the engine compiles every file of a directory tree "
+        "independently of the others (pugjs/engine.go compileDir: a fresh renderState per file) is not a theorem but is "
+        "checked by the correspondence run: harness/c13.go writes the whole tree, production loads all of it, and the judge "
+        "compares each template's two renders with M's prediction for that template alone and with each other (oracle); "
+        "directory-listing order is the file system's (os.File.Readdir): both assignments of names / creation orders are run",
+        "interpolated tags (`#{expr}`) have no constructor in Pug/Ast.v: cases whose rendered file starts with one are "
+        "judged by the oracle on Go's two outputs only (Run/Judge_C13.v judge_opaque, verdict unmodelled when it holds)",
     ]
     assumptions = [
         "theorem domain dom_C13: every code node with more than one statement contains a statement that emits a token in "
@@ -259,6 +440,9 @@ class C13(CoreProp):
         "'mixin called but not found') is judged against the model only",
         "model after repair F-C13-a (fixes/0001-fix-debug-mode-no-longer-adds-line-feeds-to-a-script.patch): debug mode does not "
         "apply the multi-line script wrapper",
+        "directory cases: a sibling file that does not load on its own in both modes is left out of the directory by the "
+        "harness (a directory with such a file cannot be loaded by production mode at all: no successful render to compare); "
+        "every render uses a fresh engine, with at most two renders of sibling templates before it",
         "a case whose PRODUCTION render (or load outcome) already differs from the core model M is counted as unmodelled and "
         "judged by the oracle only: agreement of M with production mode is the correspondence of C01-C06, which alarms there; a "
         "difference that shows in debug mode only (output, load outcome or emitted template text) is drift here",
@@ -269,14 +453,23 @@ class C13(CoreProp):
         "passes no block, later blocks are numbered differently and the token lists are not related by insertion; the outputs "
         "are still equal on the witness (Proofs/C13Proofs.v ex_off_domain_outputs) — not refuted, not proved; the generators "
         "never produce such code (it needs a statement list without `;`), the oracle on Go's outputs does not depend on it",
+        "no theorem covers the engine's loading of a directory tree (that the compile of one file is independent of the files "
+        "compiled before it by the same LoadTemplates, and of earlier renders on the same engine): the theorems are about the "
+        "compile of ONE template in the two modes; file independence is explored by the directory cases of the correspondence "
+        "run only",
     ]
 
     # ---------------------------------------------------------------- generation
     def generate(self, rng, n, tier):
         cases = []
         w = W(rng)
+        dirs = Dir(rng)
         while len(cases) < n:
             k = rng.random()
+            if rng.random() < DIR_SHARE:
+                # a directory of templates: 2k cases (every template x both name assignments)
+                cases.extend(dirs.group(tier))
+                continue
             if k < 0.30:
                 c = w.case(tier)
             elif k < 0.50:
@@ -299,7 +492,45 @@ class C13(CoreProp):
                 nodes = ser(head + ([w.text(), wrapped, w.text()] if rng.random() < 0.5 else [wrapped]))
             c = {"nodes": nodes, "datas": c["datas"][:2]}
             cases.append(c)
-        return cases
+        return cases[:n]
+
+    # ---------------------------------------------------------------- harness / judge formats
+    def harness_case(self, case):
+        datas = [tmpl.data_go(de(d)) for d in case["datas"]]
+        if "dir" not in case:
+            return {"files": [[hx("t"), hx(file_text(de(case["nodes"]), None))]], "render": hx("t"), "datas": datas, "before": []}
+        files = []
+        for f in case["dir"]:
+            if f["nodes"] is None:
+                files.append([hx(f["name"]), hx(file_text(de(case["nodes"]), de(case.get("itag"))))])
+            else:
+                files.append([hx(f["name"]), hx(file_text(de(f["nodes"]), de(f.get("itag"))))])
+        return {"files": files, "render": hx(case["name"]), "datas": datas, "before": [hx(b) for b in case.get("before", [])]}
+
+    def emit(self, case, obs):
+        return (b"{| d_case := " + CoreProp.emit(self, case, obs) + b"; d_opaque := " + cq_bool(bool(case.get("itag"))) + b" |}")
+
+    def shrink(self, case):
+        out = []
+        if "dir" in case:
+            if case.get("before"):
+                out.append(dict(case, before=[]))
+            sibs = [i for i, f in enumerate(case["dir"]) if f["nodes"] is not None]
+            for i in sibs:
+                out.append(dict(case, dir=case["dir"][:i] + case["dir"][i + 1:],
+                                before=[b for b in case.get("before", []) if b != case["dir"][i]["name"]]))
+            if not sibs and not case.get("itag"):
+                out.append({"nodes": case["nodes"], "datas": case["datas"]})      # the template alone, under the usual name
+            for i in sibs:
+                f = case["dir"][i]
+                cands = []
+                if f.get("itag"):
+                    cands.append(dict(f, itag=None))
+                for cand in list(shrink_nodes(de(f["nodes"])))[:40]:
+                    cands.append(dict(f, nodes=ser(cand)))
+                for g in cands:
+                    out.append(dict(case, dir=case["dir"][:i] + [g] + case["dir"][i + 1:]))
+        return out + CoreProp.shrink(self, case)
 
     # ---------------------------------------------------------------- evidence
     def nontrivial(self, case, obs):
@@ -309,6 +540,11 @@ class C13(CoreProp):
     def sample(self, case, obs):
         s = CoreProp.sample(self, case, obs)
         d = obs.get("debug") or {}
+        if "dir" in case:
+            s["rendered_name"] = case["name"]
+            s["directory"] = [f["name"] + ".ast.json" for f in case["dir"]]
+            s["rendered_before_on_the_same_engine"] = case.get("before", [])
+            s["starts_with_interpolated_tag"] = bool(case.get("itag"))
         s["emitted_template_debug"] = unhx(d.get("code", "")).decode("utf-8", "replace")[:800]
         s["go_output_debug"] = [unhx(r.get("out", "")).decode("utf-8", "replace")[:300] if r.get("class") == "ok" else r.get("class")
                                 for r in (d.get("res") or [])][:2]
@@ -339,6 +575,47 @@ class C13(CoreProp):
                     dropped[bb] = dropped.get(bb, 0) + 1
                 elif (rd.get("class") == "ok") != (rp.get("class") == "ok"):
                     one_fails += 1
+        dirs = {"cases": 0, "files_in_directory": {}, "with_sub_directories": 0, "name_is_prefix_of_a_sibling": 0,
+                "sibling_defines_same_mixin_differently": 0, "sibling_defines_same_mixin_identically": 0,
+                "sibling_ends_in_raw_code": 0, "rendered_starts_with_interpolated_tag": 0, "with_history_on_the_engine": 0,
+                "siblings_left_out_not_loadable_alone": 0, "distinct_directories": 0}
+        seen_dirs = set()
+        for c, o in zip(cases, obss):
+            if "dir" not in c:
+                continue
+            dirs["cases"] += 1
+            k = str(len(c["dir"]))
+            dirs["files_in_directory"][k] = dirs["files_in_directory"].get(k, 0) + 1
+            if any("/" in f["name"] for f in c["dir"]):
+                dirs["with_sub_directories"] += 1
+            if any(f["name"] != c["name"] and f["name"].startswith(c["name"]) for f in c["dir"]):
+                dirs["name_is_prefix_of_a_sibling"] += 1
+            mine = mixin_defs(de(c["nodes"]))
+            same = diff = raw = False
+            for f in c["dir"]:
+                if f["nodes"] is None:
+                    continue
+                ns = de(f["nodes"])
+                for nm, dfn in mixin_defs(ns).items():
+                    if nm in mine:
+                        if dfn == mine[nm]:
+                            same = True
+                        else:
+                            diff = True
+                codes_ = [n for n in ns if n[0] == 'code']
+                if codes_ and ns[-1][0] == 'code' and not ns[-1][2]:
+                    raw = True
+            dirs["sibling_defines_same_mixin_differently"] += diff
+            dirs["sibling_defines_same_mixin_identically"] += same
+            dirs["sibling_ends_in_raw_code"] += raw
+            dirs["rendered_starts_with_interpolated_tag"] += bool(c.get("itag"))
+            dirs["with_history_on_the_engine"] += bool(c.get("before"))
+            dirs["siblings_left_out_not_loadable_alone"] += len(o.get("dropped") or [])
+            seen_dirs.add(json.dumps(sorted(json.dumps([f["nodes"] if f["nodes"] is not None else c["nodes"],
+                                                        f["itag"] if f["nodes"] is not None else c.get("itag")], sort_keys=True)
+                                            for f in c["dir"])))
+        dirs["distinct_directories"] = len(seen_dirs)
+        d["directory_cases"] = dirs
         d.update({"constructs": tags, "separators_in_debug_template": seps, "render_pairs_both_ok": both_ok,
                   "render_pairs_outputs_differ": differ, "white_space_bytes_dropped_by_debug": dropped,
                   "render_pairs_one_mode_fails": one_fails, "cases_load_outcome_differs": load_diff})
@@ -349,7 +626,7 @@ class C13(CoreProp):
                "model_load dbg c, "
                "map (fun d => match model_out dbg c d with OOk o => (0, string_of_list_ascii o) | OPanic => (1, EmptyString) "
                "| OUnmod => (3, EmptyString) | OFuel => (4, EmptyString) end) (c_datas c)))")
-        return "(text_seam2 c, %s false, %s true)" % (one, one)
+        return "(let c := d_case c in (text_seam2 c, %s false, %s true))" % (one, one)
 
 
 PROP = C13()
